@@ -605,9 +605,6 @@ func (g *fgen) maybeOptions(newOpts func() proto.Message, rate int) proto.Messag
 		if xt.TypeDescriptor().FullName() == "pb.go" {
 			continue
 		}
-		if g.clean && xt.TypeDescriptor().IsList() {
-			continue
-		}
 		g.setExt(opts, xt)
 	}
 	if proto.Size(opts) == 0 {
@@ -747,10 +744,7 @@ func genFdpOp(h *vh.H) string {
 	// file options
 	if h.Chance(1, 3) {
 		fo := &descriptorpb.FileOptions{}
-		k := h.Rng.IntN(5)
-		if g.clean && k == 3 {
-			k = 0
-		}
+		k := h.Rng.IntN(7)
 		switch k {
 		case 0:
 			fo.GoPackage = proto.String("github.com/x/y/gen_pb")
@@ -766,6 +760,20 @@ func genFdpOp(h *vh.H) string {
 		case 4:
 			fo.Deprecated = proto.Bool(true)
 			fo.ObjcClassPrefix = proto.String("GEN")
+		case 5:
+			// extension-valued file options (google.api.resource_definition, ...)
+			if o := g.maybeOptions(func() proto.Message { return &descriptorpb.FileOptions{} }, 1); o != nil {
+				fo = o.(*descriptorpb.FileOptions)
+				g.feat["file-option-extension"] = true
+			}
+			if h.Chance(1, 2) {
+				fo.GoPackage = proto.String("github.com/x/y/gen_pb")
+			}
+		case 6:
+			fo.OptimizeFor = vh.Pick(h, []*descriptorpb.FileOptions_OptimizeMode{descriptorpb.FileOptions_SPEED.Enum(), descriptorpb.FileOptions_LITE_RUNTIME.Enum()})
+			fo.CcEnableArenas = proto.Bool(false)
+			fo.JavaPackage = proto.String(g.randString())
+			g.feat["file-option-enum"] = true
 		}
 		g.fdp.Options = fo
 	}
